@@ -100,7 +100,7 @@ MIRI_ERR = re.compile(r"error: (Undefined Behavior|unsupported operation|.*[Dd]a
 
 
 def part_c(tier, out):
-    seeds, programs = (12, 6) if tier == "quick" else (64, 24)
+    seeds, programs = (16, 5) if tier == "quick" else (64, 24)
     flags = f"-Zmiri-many-seeds=0..{seeds} -Zmiri-preemption-rate=0.1 -Zmiri-disable-isolation"
     env = dict(ENV, MIRIFLAGS=flags)
     t0 = time.time()
